@@ -764,6 +764,7 @@ private:
       date.tm_hour = static_cast<decltype(date.tm_hour)>(config.daily_rotation_time().first.count());
       date.tm_min = static_cast<decltype(date.tm_min)>(config.daily_rotation_time().second.count());
       date.tm_sec = 0;
+      date.tm_isdst = -1; // HH:MM can be on the other side of a DST change, mktime finds out
     }
     else
     {
@@ -771,8 +772,20 @@ private:
     }
 
     // convert back to timestamp
-    time_t const rotation_time =
+    time_t rotation_time =
       (config.timezone() == Timezone::GmtTime) ? detail::timegm(&date) : std::mktime(&date);
+
+    if ((rotation_time <= time_now) && (config.timezone() != Timezone::GmtTime) &&
+        (config.rotation_frequency() == RotatingFileSinkConfig::RotationFrequency::Daily))
+    {
+      // HH:MM has passed today, take tomorrow's HH:MM; a local day is not always 24 hours long
+      date.tm_mday += 1;
+      date.tm_hour = static_cast<decltype(date.tm_hour)>(config.daily_rotation_time().first.count());
+      date.tm_min = static_cast<decltype(date.tm_min)>(config.daily_rotation_time().second.count());
+      date.tm_sec = 0;
+      date.tm_isdst = -1;
+      rotation_time = std::mktime(&date);
+    }
 
     uint64_t const rotation_time_seconds = (rotation_time > time_now)
       ? static_cast<uint64_t>(rotation_time)
